@@ -111,6 +111,7 @@ def main():
         oe = speclib.OldEnv(clause, env) if clause else None
         del speclib.TRACE[:]
         del speclib.CALLS[:]
+        del speclib.CALL_ARGS[:]
         raised = None
         result = None
         try:
@@ -122,7 +123,31 @@ def main():
         out["result_repr"] = repr(result)[:500]
         out["trace"] = [repr(e)[:200] for e in speclib.TRACE[:20]]
         kind = rp.get("kind", "postcondition")
-        if kind == "safety":
+        if kind == "call-site":
+            # evaluate the clause at every call of the callee, with the caller's locals and arg0.. bound
+            callee = rp["callee"]
+            bad = None
+            n = 0
+            for q, a, k, loc in speclib.CALL_ARGS:
+                if q != callee:
+                    continue
+                n += 1
+                e2 = dict(env)
+                e2.update(loc)
+                for i, v in enumerate(a):
+                    e2[f"arg{i}"] = v
+                try:
+                    ok = bool(eval(compile(clause.strip(), "<clause>", "eval"), e2))
+                except Exception as ex:  # noqa
+                    ok = False
+                    out["clause_error"] = repr(ex)
+                if not ok:
+                    bad = {"args": [repr(x)[:120] for x in a]}
+                    break
+            out["calls_checked"] = n
+            out["reproduced"] = bad is not None
+            out["failing_call"] = bad
+        elif kind == "safety":
             expected = rp.get("expect_raise")
             out["reproduced"] = raised is not None and (expected is None or type(raised).__name__ == expected
                                                           or expected in [c.__name__ for c in type(raised).__mro__])
